@@ -333,6 +333,10 @@ mod imp {
         Let(bool, String, E), Assign(String, &'static str, E), Inc(String, bool), Print(bool, E),
         If(E, Vec<S>, Option<Vec<S>>, bool), While(E, Vec<S>), For(String, E, E, Vec<S>), Fn(String, Vec<String>, Vec<S>),
         Return(Option<E>), Break, Continue, Expr(E),
+        /// `let v: i32 = 5` / `= -5`: an integer literal under a sized-integer annotation
+        LetTyped(String, &'static str, E),
+        /// an (unused) struct declaration; bool = the field list is written on several lines
+        StructDecl(String, usize, bool),
     }
 
     pub struct Gen<'a> { r: &'a mut Rng, fresh: usize, ints: Vec<String>, muts: Vec<String>, vecs: Vec<String>, fns: Vec<(String, usize)>, lams: Vec<String>, depth: usize, in_loop: bool, in_fn: bool, in_lambda: bool, in_while: bool, pushable: Vec<String> }
@@ -438,7 +442,7 @@ mod imp {
         fn stmt(&mut self) -> S {
             let top = self.depth == 0;
             loop {
-                match self.r.below(18) {
+                match self.r.below(21) {
                     0 | 1 => { let m = self.r.chance(1, 2); let x = self.name("v");
                                let e = if self.r.chance(1, 4) && !self.in_fn { self.if_expr(1) } else { self.int_expr(2) };
                                self.ints.push(x.clone()); if m { self.muts.push(x.clone()); } return S::Let(m, x, e); }
@@ -489,6 +493,14 @@ mod imp {
                     15 => { let cands: Vec<String> = self.pushable.iter().filter(|v| self.vecs.contains(v)).cloned().collect();
                             if !cands.is_empty() { let v = self.r.pick(&cands).clone();
                                return S::Expr(E::Method(Box::new(E::Var(v)), "push", vec![self.int_expr(1)])); } },
+                    17 => { let x = self.name("v");
+                            let (ty, max) = *self.r.pick(&[("i8", 127u64), ("i16", 32767), ("i32", 2147483647), ("i64", 1 << 40), ("int", 1 << 40)]);
+                            let n = E::Int(self.r.below(max.min(100000)) );
+                            let e = if self.r.chance(1, 3) { E::Neg(Box::new(n)) } else { n };
+                            self.ints.push(x.clone());
+                            return S::LetTyped(x, ty, e); }
+                    18 => if top { let nme = format!("Rec{}", { self.fresh += 1; self.fresh }); return S::StructDecl(nme, self.r.range_i64(1, 3) as usize, self.r.chance(1, 2)); },
+                    19 => if self.r.chance(1, 2) { return S::Print(true, E::Neg(Box::new(E::Int(1 << 47)))); },   // the most negative 48-bit literal
                     16 => if !self.fns.is_empty() && !self.in_lambda { let (f, n) = self.r.pick(&self.fns).clone();
                                // a variable that is never read, initialised by a call (the callee may print)
                                let u = self.name("unused");
@@ -515,7 +527,8 @@ mod imp {
 
     /// Every syntactic position in which a family can apply its transformation (the generator must
     /// reach each of them; the counts go into the evidence).
-    pub const POSITIONS: [&str; 63] = [
+    pub const POSITIONS: [&str; 65] = [
+        "Parens:typed-let-init", "Reflow:struct-decl",
         "Breaks:before-comma", "Breaks:before-call-rparen", "Breaks:before-veclit-rbracket", "Breaks:before-method-rparen", "Breaks:before-print-rparen",
         "Semi:value-block-tail", "Reflow:value-block", "Reflow:stmt-block",
         "Comment:trailing:value-block-before-close", "Comment:own-line:value-block-before-close", "Blank:value-block-before-close",
@@ -541,11 +554,16 @@ mod imp {
         /// value-block tails whose text starts with `~` (open finding KF-C15-3)
         pub comment_before_else: bool, pub sep_inside_parens: usize, pub applied: usize, pub tilde_tail: usize,
         pub pos: std::collections::BTreeMap<String, usize>, kinds: Vec<&'static str>, in_range: bool,
+        /// redundant parentheses written inside a sized-int-annotated let / directly around the literal 2^47 under a minus; struct declarations written on several lines
+        pub typed_paren: usize, pub minbound_paren: usize, pub struct_ml: usize, in_typed: bool, in_minbound: bool,
+        /// sized-int variables declared (i8/i16/i32); integer literals wrapped in redundant parentheses anywhere
+        pub sized_vars: usize, pub lit_paren: usize,
     }
     impl<'a> Pr<'a> {
         pub fn new(fam: Fam, r: &'a mut Rng) -> Self {
             Pr { o: String::new(), fam, r, ind: 0, paren: 0, comment_before_else: false, sep_inside_parens: 0, applied: 0, tilde_tail: 0,
-                 pos: Default::default(), kinds: vec!["top-level"], in_range: false }
+                 pos: Default::default(), kinds: vec!["top-level"], in_range: false,
+                 typed_paren: 0, minbound_paren: 0, struct_ml: 0, in_typed: false, in_minbound: false, sized_vars: 0, lit_paren: 0 }
         }
         fn note(&mut self, p: String) { self.applied += 1; *self.pos.entry(p).or_insert(0) += 1; }
         fn indent(&mut self) {
@@ -612,7 +630,7 @@ mod imp {
         /// r-value position `pos`: may be wrapped in redundant parentheses
         fn rv(&mut self, e: &E, pos: &'static str) {
             let wrap = self.fam == Fam::Parens && self.r.chance(1, 3);
-            if wrap { self.note(format!("Parens:{pos}")); let n = 1 + self.r.below(2) as usize; for _ in 0..n { self.o.push('('); } self.paren += n;
+            if wrap { if matches!(e, E::Int(_)) { self.lit_paren += 1; } if self.in_typed { self.typed_paren += 1; } if self.in_minbound { self.minbound_paren += 1; } self.note(format!("Parens:{pos}")); let n = 1 + self.r.below(2) as usize; for _ in 0..n { self.o.push('('); } self.paren += n;
                       self.expr(e); self.paren -= n; for _ in 0..n { self.o.push(')'); } }
             else { self.expr(e); }
         }
@@ -646,7 +664,8 @@ mod imp {
                 E::Str(s) => { self.o.push('"'); self.o.push_str(s); self.o.push('"'); }
                 E::Var(x) => self.o.push_str(x),
                 E::Bin(a, op, b) => { self.operand(a); self.sp(); self.o.push_str(op); self.sp(); self.operand(b); }
-                E::Neg(a) => { self.o.push('-'); self.operand(a); }
+                E::Neg(a) => { self.o.push('-'); let mb = matches!(**a, E::Int(n) if n == 1 << 47);
+                    if mb { self.in_minbound = true; } self.operand(a); if mb { self.in_minbound = false; } }
                 E::BitNot(a) => { self.o.push('~'); self.operand(a); }
                 E::Not(a) => { self.o.push_str("not "); self.operand(a); }
                 E::Call(f, args) => { self.o.push_str(f); self.open("(", Some("after-call-lparen"));
@@ -715,6 +734,20 @@ mod imp {
                 S::Break => self.o.push_str("break"),
                 S::Continue => self.o.push_str("continue"),
                 S::Expr(e) => self.rv(e, "stmt-expr"),
+                S::LetTyped(x, ty, e) => { if matches!(*ty, "i8" | "i16" | "i32") { self.sized_vars += 1; } self.o.push_str("let"); self.sp(); self.o.push_str(x); self.o.push(':'); self.sp(); self.o.push_str(ty);
+                    self.sp(); self.o.push('='); self.sp(); self.in_typed = true; self.rv(e, "typed-let-init"); self.in_typed = false; }
+                S::StructDecl(nme, nf, ml) => {
+                    let ml = if self.fam == Fam::Reflow && self.r.chance(1, 2) { self.note("Reflow:struct-decl".into()); !*ml } else { *ml };
+                    if ml { self.struct_ml += 1; }
+                    self.o.push_str("struct"); self.sp(); self.o.push_str(nme); self.sp(); self.o.push('{');
+                    for i in 0..*nf {
+                        if i > 0 { self.o.push(','); }
+                        if ml { self.o.push('\n'); self.ind += 1; self.indent(); self.ind -= 1; } else { self.sp(); }
+                        self.o.push_str(&format!("f{}: int", i));
+                    }
+                    if ml { self.o.push('\n'); self.indent(); } else { self.sp(); }
+                    self.o.push('}');
+                }
             }
         }
         pub fn program(&mut self, p: &[S]) {
@@ -919,6 +952,7 @@ mod imp {
             bp.program(&prog);
             let base_sep_in_parens = bp.sep_inside_parens;
             let base_tilde = bp.tilde_tail;
+            let base_struct_ml = bp.struct_ml;
             let base = bp.o;
             let base_out: Vec<Outcome> = opts.iter().map(|&o| run_program(&base, o, (0, 0), budget, None)).collect();
             let base_ast = ast_norm(&base);
@@ -928,7 +962,7 @@ mod imp {
                     let mut vp = Pr::new(fam, &mut vr);
                     vp.program(&prog);
                     if vp.applied == 0 || vp.o == base { continue; }
-                    let flags = format!("applied={},comment_before_else={},sep_inside_parens={}/{},tilde_tail={}", vp.applied, vp.comment_before_else as u8, base_sep_in_parens, vp.sep_inside_parens, base_tilde);
+                    let flags = format!("applied={},comment_before_else={},sep_inside_parens={}/{},tilde_tail={},typed_paren={},minbound_paren={},struct_ml={}/{},sized_lit_paren={}", vp.applied, vp.comment_before_else as u8, base_sep_in_parens, vp.sep_inside_parens, base_tilde, vp.typed_paren, vp.minbound_paren, base_struct_ml, vp.struct_ml, if vp.sized_vars > 0 { vp.lit_paren } else { 0 });
                     for (k, v) in &vp.pos { *dist.entry(k.clone()).or_insert(0) += v; }
                     let var = vp.o;
                     // parser-level oracle: same AST modulo spans and Grouping ("-" when one of the texts is rejected)
